@@ -36,33 +36,49 @@ def filter_run_co(F):
     return cands[0]
 
 
-def handler_chain(F, body, top):
-    """Walk up from closure `body` to `top`: list of (field-name of the Option the handler belongs to, 'Some'|'None'|'?')."""
+def _opts_field(F, body, op_or_place, is_place=False):
+    ds = A.deep_slice(F, body, [] if is_place else [op_or_place], []) if not is_place else A.deep_slice(F, body, [{"k": "copy", "pl": op_or_place}])
+    fld = sorted({n for o, n in ds.fields if o == "cli::Opts"})
+    return fld[0] if len(fld) == 1 else None
+
+
+def handler_chain(F, body, top, site=None):
+    """Conditions on the CLI options under which `site` (in closure `body`, nested in `top`) runs: list of
+    (cli::Opts field, 'Some'|'None').  Both spellings are understood: Option combinators (`map_or_else`, `map`,
+    `unwrap_or_else` …: which handler the closure is) and `if let` / `match` (discriminant guards)."""
     chain = []
-    b = body
+    b, cur_site = body, site
     guard = 0
-    while b is not top and guard < 8:
+    while guard < 8:
         guard += 1
+        # if-let / match style guards at this level
+        if cur_site is not None:
+            for g in A.guards_of(b, cur_site):
+                d = g.cond_def()
+                if d and d[0] == "discr" and d[2] == "std::option::Option":
+                    fld = _opts_field(F, b, d[1], is_place=True)
+                    vs = g.variants()
+                    if fld and vs in ({"Some"}, {"None"}):
+                        chain.append((fld, vs.pop()))
+        if b is top:
+            break
         cc = A.closure_creation(F, b)
         if cc is None:
             break
         P, cs, st = cc
         uses, _ = A.forward_uses(P, st["pl"]["l"])
         for s, t, idx in uses:
+            kind = None
             if callee_is(t, r"Option::<.*>::map_or_else$"):
-                recv = A.deep_slice(F, P, [t["args"][0]])
-                fld = sorted(n for o, n in recv.fields if o == "cli::Opts")
-                chain.append((fld[0] if len(fld) == 1 else str(fld), "None" if idx == 1 else "Some"))
+                kind = "None" if idx == 1 else "Some"
             elif callee_is(t, r"Option::<.*>::(map|map_or|and_then|is_some_and|filter)$"):
-                recv = A.deep_slice(F, P, [t["args"][0]])
-                fld = sorted(n for o, n in recv.fields if o == "cli::Opts")
-                chain.append((fld[0] if len(fld) == 1 else str(fld), "Some"))
+                kind = "Some"
             elif callee_is(t, r"Option::<.*>::(unwrap_or_else|or_else)$"):
-                recv = A.deep_slice(F, P, [t["args"][0]])
-                fld = sorted(n for o, n in recv.fields if o == "cli::Opts")
-                chain.append((fld[0] if len(fld) == 1 else str(fld), "None"))
-        # if-let / match style: guards on discriminants of the cli options at the creation site
-        b = P
+                kind = "None"
+            if kind:
+                fld = _opts_field(F, P, t["args"][0])
+                chain.append((fld or "?", kind))
+        b, cur_site = P, cs
     return chain
 
 
@@ -84,12 +100,12 @@ def r1(F, R):
     tops = {top_of(x[0]).key for x in (ism[0], ev[0], usr[0])}
     R.check(len(tops) == 1, "one-composed-filter", co, "", "the three filter sources are not combined in one closure")
     top = top_of(ism[0][0])
-    c_ism = handler_chain(F, ism[0][0], top)
-    c_ev = handler_chain(F, ev[0][0], top)
-    c_usr = handler_chain(F, usr[0][0], top)
-    R.check(c_ism == [("re_filter", "Some")], "name-filter-first", ism[0][1], "is_match ⇐ re_filter is Some", f"Regex::is_match runs under {c_ism}")
-    R.check(sorted(c_ev) == [("re_filter", "None"), ("tags_filter", "Some")], "tags-only-without-name", ev[0][1], "eval ⇐ re_filter None ∧ tags_filter Some", f"tag evaluation runs under {c_ev}")
-    R.check(sorted(c_usr) == [("re_filter", "None"), ("tags_filter", "None")], "closure-only-without-cli-filters", usr[0][1], "closure ⇐ both None", f"the user closure runs under {c_usr}")
+    c_ism = handler_chain(F, ism[0][0], top, ism[0][1])
+    c_ev = handler_chain(F, ev[0][0], top, ev[0][1])
+    c_usr = handler_chain(F, usr[0][0], top, usr[0][1])
+    R.check(sorted(set(c_ism)) == [("re_filter", "Some")], "name-filter-first", ism[0][1], "is_match ⇐ re_filter is Some", f"Regex::is_match runs under {c_ism}")
+    R.check(sorted(set(c_ev)) == [("re_filter", "None"), ("tags_filter", "Some")], "tags-only-without-name", ev[0][1], "eval ⇐ re_filter None ∧ tags_filter Some", f"tag evaluation runs under {c_ev}")
+    R.check(sorted(set(c_usr)) == [("re_filter", "None"), ("tags_filter", "None")], "closure-only-without-cli-filters", usr[0][1], "closure ⇐ both None", f"the user closure runs under {c_usr}")
     # haystack is the scenario name
     hs = A.deep_slice(F, ism[0][0], [ism[0][2]["args"][1]])
     R.check(("gherkin::Scenario", "name") in hs.fields and not [f for f in hs.fields if f[0].startswith("gherkin::") and f != ("gherkin::Scenario", "name")], "name-regex-on-scenario-name", ism[0][1],
